@@ -225,6 +225,7 @@ class Report:
             path = write_replay(self.prop, seed, run, payload)
             print(f"VIOLATION property={self.prop} replay={path}")
             print(f"  signature: {sig}")
+            print(f"  replay: ./check replay {path}    as Python: ./check show {path}")
             n += 1
         sys.stdout.flush()
         return 1 if self.new else 0
